@@ -1,0 +1,192 @@
+//go:build verif
+
+package matrix
+
+// Contracts for the deductive verifier in /verif (build tag verif: this file is
+// not compiled into normal builds). Lines starting with //@ are the contracts;
+// the Go functions below are pure ghost helpers used only inside them.
+//
+// Oracle: the doc comment of Transform (x' = a*x + c*y + e ; y' = b*x + d*y + f),
+// CSS Transforms 1 (skew) and the group laws of property C17.
+
+type vpt struct{ X, Y fl }
+
+// vmul is the composite "apply u, then t" written out on the coefficients; that it
+// is the composition of the two maps is proved (`shows` clause of mult), not assumed.
+func vmul(t, u Transform) Transform {
+	return Transform{
+		A: t.A*u.A + t.C*u.B, B: t.B*u.A + t.D*u.B,
+		C: t.A*u.C + t.C*u.D, D: t.B*u.C + t.D*u.D,
+		E: t.A*u.E + t.C*u.F + t.E, F: t.B*u.E + t.D*u.F + t.F,
+	}
+}
+
+// vapply is the map the doc comment of Transform defines.
+func vapply(t Transform, p vpt) vpt {
+	return vpt{t.A*p.X + t.C*p.Y + t.E, t.B*p.X + t.D*p.Y + t.F}
+}
+
+//@ func New
+//@   props C17
+//@   nopanic
+//@   ensures result == Transform{a, b, c, d, e, f}
+
+//@ func Identity
+//@   props C17
+//@   nopanic
+//@   ensures result == Transform{1, 0, 0, 1, 0, 0}
+//@   shows forallR(x, y, vapply(result, vpt{x, y}) == vpt{x, y})
+
+//@ func Translation
+//@   props C17
+//@   nopanic
+//@   ensures result == Transform{1, 0, 0, 1, tx, ty}
+//@   shows forallR(x, y, vapply(result, vpt{x, y}) == vpt{x + tx, y + ty})
+
+//@ func Scaling
+//@   props C17
+//@   nopanic
+//@   ensures result == Transform{sx, 0, 0, sy, 0, 0}
+//@   shows forallR(x, y, vapply(result, vpt{x, y}) == vpt{sx * x, sy * y})
+
+//@ func Rotation
+//@   props C17
+//@   nopanic
+//@   ensures result == Transform{cos(radians), sin(radians), -sin(radians), cos(radians), 0, 0}
+//@   shows forallR(x, y, vapply(result, vpt{x, y}) == vpt{cos(radians)*x - sin(radians)*y, sin(radians)*x + cos(radians)*y})
+
+// CSS Transforms 1, skew(ax, ay) = [1 tan(ay) tan(ax) 1 0 0]: x' = x + tan(ax)*y, y' = tan(ay)*x + y
+//@ func Skew
+//@   props C17
+//@   nopanic
+//@   ensures result == Transform{1, tan(thetay), tan(thetax), 1, 0, 0}
+//@   shows forallR(x, y, vapply(result, vpt{x, y}) == vpt{x + tan(thetax)*y, y + tan(thetay)*x})
+
+//@ func (Transform).Determinant
+//@   props C17
+//@   nopanic
+//@   ensures result == t.A*t.D - t.B*t.C
+
+//@ func (Transform).Apply
+//@   props C17
+//@   nopanic
+//@   ensures vpt{outX, outY} == vapply(T, vpt{x, y})
+
+//@ func mult
+//@   props C17
+//@   nopanic
+//@   requires out != nil
+//@   modifies *out
+//@   shows forallR(x, y, vapply(*out, vpt{x, y}) == vapply(t1, vapply(t2, vpt{x, y})))
+//@   ensures *out == vmul(t1, t2)
+
+//@ func Mul
+//@   props C17
+//@   nopanic
+//@   modifies nothing
+//@   ensures result == vmul(T, U)
+//@   shows forallR(x, y, vapply(result, vpt{x, y}) == vapply(T, vapply(U, vpt{x, y})))
+
+//@ func Mul3
+//@   props C17
+//@   nopanic
+//@   modifies nothing
+//@   ensures result == vmul(R, vmul(S, T))
+//@   shows forallR(x, y, vapply(result, vpt{x, y}) == vapply(R, vapply(S, vapply(T, vpt{x, y}))))
+
+//@ func (*Transform).LeftMultBy
+//@   props C17
+//@   nopanic
+//@   requires T != nil
+//@   modifies *T
+//@   ensures *T == vmul(U, old(*T))
+//@   shows forallR(x, y, vapply(*T, vpt{x, y}) == vapply(U, vapply(old(*T), vpt{x, y})))
+
+//@ func (*Transform).RightMultBy
+//@   props C17
+//@   nopanic
+//@   requires T != nil
+//@   modifies *T
+//@   ensures *T == vmul(old(*T), U)
+//@   shows forallR(x, y, vapply(*T, vpt{x, y}) == vapply(old(*T), vapply(U, vpt{x, y})))
+
+//@ func (*Transform).Invert
+//@   props C17
+//@   nopanic
+//@   requires T != nil
+//@   modifies *T
+//@   ensures[singular] old(T.A*T.D - T.B*T.C) == 0 ==> result != nil && *T == old(*T)
+//@   ensures[ok]       old(T.A*T.D - T.B*T.C) != 0 ==> result == nil
+//@   ensures[left]     old(T.A*T.D - T.B*T.C) != 0 ==> forallR(x, y, vapply(*T, vapply(old(*T), vpt{x, y})) == vpt{x, y})
+//@   ensures[right]    old(T.A*T.D - T.B*T.C) != 0 ==> forallR(x, y, vapply(old(*T), vapply(*T, vpt{x, y})) == vpt{x, y})
+
+//@ func (*Transform).Translate
+//@   props C17
+//@   nopanic
+//@   requires T != nil
+//@   modifies *T
+//@   ensures *T == vmul(old(*T), Transform{1, 0, 0, 1, tx, ty})
+//@   shows forallR(x, y, vapply(*T, vpt{x, y}) == vapply(old(*T), vpt{x + tx, y + ty}))
+
+//@ func (*Transform).Scale
+//@   props C17
+//@   nopanic
+//@   requires T != nil
+//@   modifies *T
+//@   ensures *T == vmul(old(*T), Transform{sx, 0, 0, sy, 0, 0})
+//@   shows forallR(x, y, vapply(*T, vpt{x, y}) == vapply(old(*T), vpt{sx * x, sy * y}))
+
+//@ func (*Transform).Rotate
+//@   props C17
+//@   nopanic
+//@   requires T != nil
+//@   modifies *T
+//@   ensures *T == vmul(old(*T), Transform{cos(radians), sin(radians), -sin(radians), cos(radians), 0, 0})
+//@   shows forallR(x, y, vapply(*T, vpt{x, y}) == vapply(old(*T), vpt{cos(radians)*x - sin(radians)*y, sin(radians)*x + cos(radians)*y}))
+
+//@ func (*Transform).Skew
+//@   props C17
+//@   nopanic
+//@   requires T != nil
+//@   modifies *T
+//@   ensures *T == vmul(old(*T), Transform{1, tan(thetay), tan(thetax), 1, 0, 0})
+//@   shows forallR(x, y, vapply(*T, vpt{x, y}) == vapply(old(*T), vpt{x + tan(thetax)*y, y + tan(thetay)*x}))
+
+// Group laws, stated over the functions' results (their bodies are inlined in
+// specifications; each body is separately proved against its own contract above).
+
+//@ lemma vmul-is-composition
+//@   props C17
+//@   param T Transform
+//@   param U Transform
+//@   param x fl
+//@   param y fl
+//@   ensures vapply(vmul(T, U), vpt{x, y}) == vapply(T, vapply(U, vpt{x, y}))
+
+//@ lemma mul-associative
+//@   props C17
+//@   param R Transform
+//@   param S Transform
+//@   param T Transform
+//@   ensures Mul(Mul(R, S), T) == Mul(R, Mul(S, T))
+
+//@ lemma mul-identity
+//@   props C17
+//@   param T Transform
+//@   ensures Mul(T, Identity()) == T && Mul(Identity(), T) == T
+
+//@ lemma apply-homomorphism
+//@   props C17
+//@   param T Transform
+//@   param U Transform
+//@   param x fl
+//@   param y fl
+//@   ensures vapply(Mul(T, U), vpt{x, y}) == vapply(T, vapply(U, vpt{x, y}))
+
+//@ lemma inplace-equals-right-multiplication
+//@   props C17
+//@   param T Transform
+//@   param a fl
+//@   param b fl
+//@   ensures Mul(T, Translation(a, b)) == Transform{T.A, T.B, T.C, T.D, T.E + T.A*a + T.C*b, T.F + T.B*a + T.D*b}
+//@   ensures Mul(T, Scaling(a, b)) == Transform{T.A*a, T.B*a, T.C*b, T.D*b, T.E, T.F}
